@@ -310,6 +310,14 @@ func (s *Stack) bodyClass(b []byte) string {
 		if t, ok := m["errorType"].(string); ok {
 			msg, _ := m["errorMessage"].(string)
 			s.L.Add("#errmsg %s %q", t, s.scrubIDs(msg))
+			if t == "Function.ResponseSizeTooLarge" {
+				// the message must state both sizes
+				var a, b int
+				if n, _ := fmt.Sscanf(msg, "Response payload size (%d bytes) exceeded maximum allowed payload size (%d bytes).", &a, &b); n == 2 {
+					return fmt.Sprintf("errjson:%s:%d:%d", t, a, b)
+				}
+				return "errjson:" + t + ":unparsable"
+			}
 			return "errjson:" + t
 		}
 	}
